@@ -93,6 +93,10 @@ pub fn queries() -> Vec<Q> {
         Q::select("t", vec![col("id")]).order_by(col("id"), true).limit(3),
         Q::select("t", vec![col("id")]).order_by(col("id"), false).limit(2).offset(3),
         Q::select("t", vec![col("id"), col("w")]).order_by(col("w"), true).order_by(col("id"), false).limit(5).offset(1),
+        // single-key top-n whose LIMIT (+ OFFSET) exceeds the small batch sizes: the heap fills over several streamed batches
+        Q::select("t", vec![col("id"), col("a")]).order_by(col("id"), true).limit(9),
+        Q::select("t", vec![col("id"), col("s")]).order_by(col("id"), false).limit(10).offset(1),
+        Q::select("t", vec![col("id"), col("f")]).filter(gt("a", 3)).order_by(col("id"), true).limit(9),
         Q::select("t", vec![col("id")]).limit(3),
         Q::select("t", vec![col("id")]).limit(4).offset(5),
         Q::select("t", vec![col("id")]).filter(gt("a", 4)).order_by(col("id"), true).limit(2),
@@ -266,6 +270,28 @@ pub fn phys_cases(tier: Tier) -> Vec<PhysCase> {
             }
         }
     }
+    // T2 batch-size product: every batch size x the layouts that give one large partition, two partitions, or only the open buffer
+    for bs in [8usize, 16, 64, 1024] {
+        for (comp, flush, factor) in [
+            (vec![24usize], vec![true], 999u64),
+            (vec![24], vec![false], 999),
+            (vec![12, 12], vec![true, true], 0),
+            (vec![12, 12], vec![true, true], 999),
+            (vec![20, 4], vec![true, false], 999),
+            (vec![4, 20], vec![true, false], 999),
+        ] {
+            for post in [vec![], vec![Post::Restart]] {
+                out.push(PhysCase {
+                    table: 1,
+                    batches: comp.clone(),
+                    flush_after: flush.clone(),
+                    opts: DbOpts { partition_combine_factor: factor, batch_size: bs, threads: 1, ..DbOpts::default() },
+                    post,
+                    omit_null_cols: false,
+                });
+            }
+        }
+    }
     out
 }
 
@@ -407,7 +433,7 @@ impl Engine for C02 {
         let qs = queries();
         Describe {
             level: "model_checking",
-            rule: "physical realisations: T1 (8 rows, 9 columns incl. nullable ones and a column present only in late rows) in every split into <= 4 ingestion batches x every subset of batches followed by force_flush; T2 (24 rows) in splits into <= 3 batches at multiples of 4 rows (+3 uneven splits) x every flush subset; each realisation under a configuration drawn in rotation from the product partition_combine_factor {0,1,4,999} x mem_lz4 x max_partition_size_bytes {1,default} x (batch_size, threads) {(1024,1),(8,2),(16,8),(64,2)} x {as is, restarted cold, evicted} plus memory-only (thorough: 6-8 configurations per realisation). Every realisation answers the fixed set of 41 queries (one per plan shape: projection, filters per type, expressions, full sort / top-n with total order, LIMIT / OFFSET, grouped and ungrouped aggregates, final-pass expressions, SELECT *); each answer must equal the answer of the single-batch in-memory realisation (rows in order; grouped rows as a multiset; float sums with tolerance 1e-9; same error kind). Non-trivial: realisation with at least two partitions or a partition plus buffer; distinct by (realisation, configuration).".into(),
+            rule: "physical realisations: T1 (8 rows, 9 columns incl. nullable ones and a column present only in late rows) in every split into <= 4 ingestion batches x every subset of batches followed by force_flush; T2 (24 rows) in splits into <= 3 batches at multiples of 4 rows (+3 uneven splits) x every flush subset; each realisation under a configuration drawn in rotation from the product partition_combine_factor {0,1,4,999} x mem_lz4 x max_partition_size_bytes {1,default} x (batch_size, threads) {(1024,1),(8,2),(16,8),(64,2)} x {as is, restarted cold, evicted} plus memory-only (thorough: 6-8 configurations per realisation); plus, for T2, the full product batch_size {8,16,64,1024} x {one 24-row partition, open buffer only, two partitions compacted into one, two partitions, partition + buffer (20+4, 4+20)} x {as is, restarted cold}. Every realisation answers the fixed set of 44 queries (one per plan shape: projection, filters per type, expressions, full sort / top-n with total order, single-key top-n with LIMIT above the batch size, LIMIT / OFFSET, grouped and ungrouped aggregates, final-pass expressions, SELECT *); each answer must equal the answer of the single-batch in-memory realisation (rows in order; grouped rows as a multiset; float sums with tolerance 1e-9; same error kind). Non-trivial: realisation with at least two partitions or a partition plus buffer; distinct by (realisation, configuration).".into(),
             assumptions: vec!["the oracle is differential: a wrong answer shared by all realisations is the business of C03-C06".into(), "configurations are a rotating cover of the option product, not the full product per realisation".into()],
             bounds: json!({"realisations": phys_cases(tier).len(), "queries": qs.len(), "configurations_in_rotation": configs().len()}),
             states_meaning: "distinct (realisation, configuration) databases built and queried",
